@@ -578,6 +578,64 @@ func c02LongItems(h *History) []c02Item {
 	return items
 }
 
+// c02LongRequests: a linear chain of 150..170 blocks with a few stale siblings and an orphan, and request lists of
+// 101, 150, 205, 260 and 1000 items in which item i is (period 7, configured excess 6):
+//   i%7 in {0,3}: the pair of a longest-chain block, each block used once per list while they last   -> CONFIRMED
+//   i%7 in {1,4}: a root no row carries (different for every i) at a height <= tip                     -> INVALID
+//   i%7 in {2,5}: a root no row carries (different for every i) at height tip+1 .. tip+6              -> UNABLE_TO_VERIFY
+//   i%7 == 6    : the root of a longest-chain block one height too high                               -> INVALID
+// All pairs of one list are different, so position i of the answer identifies item i.
+func c02LongRequests(r *rand.Rand, submissions int) (*History, []merkOp) {
+	n := 150 + r.Intn(21)
+	h := &History{}
+	prev := genesisID
+	for i := 0; i < n; i++ {
+		id := 2 + i
+		h.Subs = append(h.Subs, Sub{ID: id, Prev: prev, Bits: bitsW2, Ver: 1, Merkle: 100 + id, TS: uint32(1600000000 + i), Nonce: uint32(i)})
+		if (i+1)%50 == 0 {
+			sid := 5000 + i
+			h.Subs = append(h.Subs, Sub{ID: sid, Prev: prev, Bits: bitsW2, Ver: 1, Merkle: 100 + sid, TS: uint32(1700000000 + i), Nonce: uint32(i)})
+		}
+		prev = id
+	}
+	h.Subs = append(h.Subs, Sub{ID: 7000, Prev: 7999, Bits: bitsW2, Ver: 1, Merkle: 7100, TS: 1800000000, Nonce: 1})
+	ops := subOps02(h.Subs)
+	tip := n
+	list := func(size int) string {
+		items := make([]c02Item, 0, size)
+		start := r.Intn(n)
+		used := 0
+		for i := 0; i < size; i++ {
+			switch i % 7 {
+			case 0, 3:
+				if used < n {
+					k := 1 + (start+used)%n // height k, block id k+1, merkle id 101+k
+					used++
+					items = append(items, c02Item{fmt.Sprintf("r%d", 101+k), int64(k)})
+				} else {
+					items = append(items, c02Item{"r1", int64(0 - i)}) // genesis root at a negative height: INVALID, still unique
+				}
+			case 1, 4:
+				items = append(items, c02Item{fmt.Sprintf("r%d", 20000+i), int64(i % (tip + 1))})
+			case 2, 5:
+				items = append(items, c02Item{fmt.Sprintf("r%d", 30000+i), int64(tip + 1 + i%6)})
+			default:
+				k := 1 + (i/7)%(n-1)
+				items = append(items, c02Item{fmt.Sprintf("r%d", 101+k), int64(k + 1)})
+			}
+		}
+		return c02ItemsString(items)
+	}
+	for s := 0; s < submissions; s++ {
+		for _, size := range []int{101, 150, 205, 260, 1000} {
+			ops = append(ops, merkOp{Tag: "q", Arg: list(size)})
+		}
+	}
+	// 100 items: the boundary below which nothing may change
+	ops = append(ops, merkOp{Tag: "q", Arg: list(100)})
+	return h, ops
+}
+
 func subOps02(subs []Sub) []merkOp {
 	ops := make([]merkOp, len(subs))
 	for i := range subs {
@@ -740,6 +798,7 @@ func runC02(c *Ctx) error {
 	k := 0
 	zeroWork := false
 	longFixed := ""
+	forceExcess := ""
 	var fromOps func(h *History, ops []merkOp, tag string) error
 	fromHistory := func(h *History, tag string) error { return fromOps(h, subOps02(h.Subs), tag) }
 	fromOps = func(h *History, ops []merkOp, tag string) error {
@@ -756,6 +815,9 @@ func runC02(c *Ctx) error {
 		if longFixed != "" {
 			head["_fixed"] = longFixed
 			head["e"] = "6"
+		}
+		if forceExcess != "" {
+			head["e"] = forceExcess
 		}
 		return c02Run(c, p, head, ops, c.Rng, tag)
 	}
@@ -784,6 +846,17 @@ func runC02(c *Ctx) error {
 	for i := 0; i < c.Pick(120, 900); i++ {
 		h, ops := c02Planted(c.Rng, i%4)
 		if err := fromOps(h, ops, fmt.Sprintf("shared-roots-planted-%c", "abcd"[i%4])); err != nil {
+			return err
+		}
+	}
+	// long request lists (101..1000 items, every item a different pair, verdicts alternating with period 7), each size
+	// submitted several times: any reordering / chunking of the answer is visible at the first displaced position
+	for rep := 0; rep < c.Pick(1, 3); rep++ {
+		h, ops := c02LongRequests(c.Rng, c.Pick(3, 6))
+		forceExcess = "6"
+		err := fromOps(h, ops, "long-request-lists")
+		forceExcess = ""
+		if err != nil {
 			return err
 		}
 	}
